@@ -1079,6 +1079,47 @@ hawk_val_t* hawk_rtx_makerexval (hawk_rtx_t* rtx, const hawk_oocs_t* str, hawk_t
 
 /* --------------------------------------------------------------------- */
 
+static void refdown_elem (hawk_rtx_t* rtx, hawk_val_t* v)
+{
+	/* release an element of a map or an array that is being destroyed.
+	 * if the element is a map or an array itself and this is the last
+	 * reference to it, destroying it here nests as deep as the containers
+	 * are nested, and nothing limits that depth. keep the reference and
+	 * let the outermost hawk_rtx_freeval() destroy it in a loop. */
+	if (HAWK_VTR_IS_POINTER(v) && !HAWK_IS_STATICVAL(v) && v->v_refs == 1 &&
+	    (v->v_type == HAWK_VAL_MAP || v->v_type == HAWK_VAL_ARR) && rtx->vdefer.depth > 0)
+	{
+		if (rtx->vdefer.size >= rtx->vdefer.capa)
+		{
+			hawk_oow_t capa = (rtx->vdefer.capa <= 0)? 64: (rtx->vdefer.capa * 2);
+			hawk_val_t** tmp = (hawk_val_t**)hawk_rtx_reallocmem(rtx, rtx->vdefer.ptr, capa * HAWK_SIZEOF(*tmp));
+			if (HAWK_UNLIKELY(!tmp)) goto direct; /* no memory to remember it. destroy it right here */
+			rtx->vdefer.ptr = tmp;
+			rtx->vdefer.capa = capa;
+		}
+		rtx->vdefer.ptr[rtx->vdefer.size++] = v;
+		return;
+	}
+
+direct:
+	hawk_rtx_refdownval (rtx, v);
+}
+
+static void free_deferred_vals (hawk_rtx_t* rtx)
+{
+	/* called when hawk_rtx_freeval() is done with a map or an array */
+	if (rtx->vdefer.depth > 0 || rtx->vdefer.draining) return;
+
+	rtx->vdefer.draining = 1;
+	while (rtx->vdefer.size > 0)
+	{
+		/* this may add more to the list. it never comes back here
+		 * for the list while vdefer.draining is set */
+		hawk_rtx_refdownval (rtx, rtx->vdefer.ptr[--rtx->vdefer.size]);
+	}
+	rtx->vdefer.draining = 0;
+}
+
 static void free_arrval (hawk_arr_t* arr, void* dptr, hawk_oow_t dlen)
 {
 	hawk_rtx_t* rtx = *(hawk_rtx_t**)hawk_arr_getxtn(arr);
@@ -1098,7 +1139,7 @@ static void free_arrval (hawk_arr_t* arr, void* dptr, hawk_oow_t dlen)
 	}
 #endif
 
-	hawk_rtx_refdownval (rtx, v);
+	refdown_elem (rtx, v);
 }
 
 static void same_arrval (hawk_arr_t* map, void* dptr, hawk_oow_t dlen)
@@ -1199,7 +1240,7 @@ static void free_mapval (hawk_map_t* map, void* dptr, hawk_oow_t dlen)
 	}
 #endif
 
-	hawk_rtx_refdownval (rtx, v);
+	refdown_elem (rtx, v);
 }
 
 static void same_mapval (hawk_map_t* map, void* dptr, hawk_oow_t dlen)
@@ -1618,16 +1659,21 @@ void hawk_rtx_freeval (hawk_rtx_t* rtx, hawk_val_t* val, int flags)
 				hawk_logbfmt (hawk_rtx_gethawk(rtx), HAWK_LOG_STDERR, "[GC] FREEING GCH %p VAL(MAP) %p - flags %d\n", hawk_val_to_gch(val), val, flags);
 				#endif
 
+				rtx->vdefer.depth++;
 				hawk_map_fini (((hawk_val_map_t*)val)->map);
+				rtx->vdefer.depth--;
 				if (!(flags & HAWK_RTX_FREEVAL_GC_PRESERVE))
 				{
 					gc_unchain_val (val);
 					gc_free_val (rtx, val);
 				}
 			#else
+				rtx->vdefer.depth++;
 				hawk_map_fini (((hawk_val_map_t*)val)->map);
+				rtx->vdefer.depth--;
 				hawk_rtx_freemem (rtx, val);
 			#endif
+				free_deferred_vals (rtx);
 				break;
 
 			case HAWK_VAL_ARR:
@@ -1637,16 +1683,21 @@ void hawk_rtx_freeval (hawk_rtx_t* rtx, hawk_val_t* val, int flags)
 				hawk_logbfmt (hawk_rtx_gethawk(rtx), HAWK_LOG_STDERR, "[GC] FREEING GCH %p VAL(ARR) %p - flags %d\n", hawk_val_to_gch(val), val, flags);
 				#endif
 
+				rtx->vdefer.depth++;
 				hawk_arr_fini (((hawk_val_arr_t*)val)->arr);
+				rtx->vdefer.depth--;
 				if (!(flags & HAWK_RTX_FREEVAL_GC_PRESERVE))
 				{
 					gc_unchain_val (val);
 					gc_free_val (rtx, val);
 				}
 			#else
+				rtx->vdefer.depth++;
 				hawk_arr_fini (((hawk_val_arr_t*)val)->arr);
+				rtx->vdefer.depth--;
 				hawk_rtx_freemem (rtx, val);
 			#endif
+				free_deferred_vals (rtx);
 				break;
 
 			case HAWK_VAL_REF:
